@@ -177,6 +177,24 @@ func checkC14(c *Check) {
 		}
 	})
 	if respVal == nil {
+		// the selection may be recorded first (an enum: nothing / first / second) and looked up afterwards:
+		// a φ of reflect.Value that merges vals[0] and vals[1]
+		allInstrs(lit, func(in ssa.Instruction) {
+			ph, ok := in.(*ssa.Phi)
+			if !ok || namedName(ph.Type()) != "Value" || respVal != nil {
+				return
+			}
+			has0, has1 := false, false
+			for _, e := range ph.Edges {
+				has0 = has0 || valAt(0)(e)
+				has1 = has1 || valAt(1)(e)
+			}
+			if has0 && has1 {
+				respVal = ph
+			}
+		})
+	}
+	if respVal == nil {
 		c.Undecided(key+":selection", p.FuncPos(lit), "selected value φ not found")
 		return
 	}
@@ -325,6 +343,80 @@ func checkC14(c *Check) {
 		}
 	}
 	flat(respVal)
+	// a recorded choice: where an incoming value is selected by `pick == K` and pick is a φ of constants, the
+	// value arrives, for the purpose of the table, on the edges where pick was given K
+	{
+		var pick *ssa.Phi
+		allInstrs(lit, func(in ssa.Instruction) {
+			ph, ok := in.(*ssa.Phi)
+			if !ok || pick != nil {
+				return
+			}
+			if b, isB := ph.Type().Underlying().(*types.Basic); !isB || b.Info()&types.IsInteger == 0 {
+				return
+			}
+			allConst := len(ph.Edges) >= 3
+			phiLeaves(ph, func(l ssa.Value) {
+				if _, isC := strip(l).(*ssa.Const); !isC {
+					allConst = false
+				}
+			})
+			if allConst {
+				pick = ph
+			}
+		})
+		if pick != nil {
+			type pin struct {
+				k    int64
+				pred *ssa.BasicBlock
+				blk  *ssa.BasicBlock
+			}
+			var pins []pin
+			seenP := map[*ssa.Phi]bool{}
+			var flatP func(ph *ssa.Phi)
+			flatP = func(ph *ssa.Phi) {
+				if seenP[ph] {
+					return
+				}
+				seenP[ph] = true
+				for i, e := range ph.Edges {
+					if inner, isPhi := e.(*ssa.Phi); isPhi {
+						flatP(inner)
+						continue
+					}
+					if k, ok := constInt(e); ok {
+						pins = append(pins, pin{k, ph.Block().Preds[i], ph.Block()})
+					}
+				}
+			}
+			flatP(pick)
+			ks := map[int64]bool{}
+			for _, pn := range pins {
+				ks[pn.k] = true
+			}
+			var expanded []incoming
+			for _, inc := range ins {
+				var sel *int64
+				for k := range ks {
+					kk := k
+					g := edgesWhere(lit, cCmp(token.EQL, vIs(pick), vConstInt(kk)), true)
+					if len(g) > 0 && edgeGuarded(lit, g, inc.pred, inc.blk) {
+						sel = &kk
+					}
+				}
+				if sel == nil {
+					expanded = append(expanded, inc)
+					continue
+				}
+				for _, pn := range pins {
+					if pn.k == *sel {
+						expanded = append(expanded, incoming{inc.e, pn.pred, pn.blk})
+					}
+				}
+			}
+			ins = expanded
+		}
+	}
 	for _, inc := range ins {
 		e, pred := inc.e, inc.pred
 		respBlk := inc.blk
